@@ -67,6 +67,7 @@ def parseCb (t : Option String) : Option CbSpec :=
     if t == "cb:all" then some .all
     else if t.startsWith "cb:rej:" then some (.rej (t.drop 7).toString.toNat!)
     else if t.startsWith "cb:suf:" then some (.suf (decD (t.drop 7).toString))
+    else if t.startsWith "cb:nest:" then some .all    -- the callback reads another file itself and accepts
     else none
 
 def cbFun : Option CbSpec → Callback
